@@ -93,6 +93,9 @@ pub fn convert_output(o: InterpreterOutput) -> Rec {
 #[derive(Clone, Debug, PartialEq, Eq, Hash, PartialOrd, Ord)]
 pub enum Ev {
     Line(String),
+    /// Submit a line and keep continuing until the interpreter is no longer running
+    /// (macro event: one `start_evaluating` plus `continue_evaluating` calls, capped).
+    LineToIdle(String),
     Cont,
     Break,
     Input(String),
@@ -105,6 +108,7 @@ impl Ev {
     pub fn to_json(&self) -> J {
         match self {
             Ev::Line(l) => json!({"line": l}),
+            Ev::LineToIdle(l) => json!({"line_to_idle": l}),
             Ev::Cont => json!("continue"),
             Ev::Break => json!("break"),
             Ev::Input(s) => json!({"input": s}),
@@ -124,6 +128,9 @@ impl Ev {
         if let Some(l) = j.get("line") {
             return Some(Ev::Line(l.as_str()?.to_string()));
         }
+        if let Some(l) = j.get("line_to_idle") {
+            return Some(Ev::LineToIdle(l.as_str()?.to_string()));
+        }
         if let Some(l) = j.get("input") {
             return Some(Ev::Input(l.as_str()?.to_string()));
         }
@@ -142,6 +149,7 @@ pub fn hist_json(h: &[Ev]) -> J {
 pub fn enabled(state: InterpreterState, ev: &Ev) -> bool {
     match (state, ev) {
         (InterpreterState::Idle, Ev::Line(_)) => true,
+        (InterpreterState::Idle, Ev::LineToIdle(_)) => true,
         (InterpreterState::Running, Ev::Cont) => true,
         (InterpreterState::Running, Ev::Break) => true,
         (InterpreterState::AwaitingInput, Ev::Input(_)) => true,
@@ -236,6 +244,15 @@ impl Sess {
                 let it = &mut self.it;
                 let r = guarded(|| it.start_evaluating(l));
                 self.finish(r)
+            }
+            Ev::LineToIdle(l) => {
+                let mut r = self.apply(&Ev::Line(l.clone()));
+                let mut turns = 0;
+                while r == CallResult::Ok && self.state() == InterpreterState::Running && turns < 20000 {
+                    r = self.apply(&Ev::Cont);
+                    turns += 1;
+                }
+                r
             }
             Ev::Cont => {
                 let it = &mut self.it;
